@@ -468,6 +468,19 @@ def walker(ck, R, fn, rule, cb):
 
     acct = WalkAccount(ps)
     candidates, track, progress = acct.candidates, acct.track, acct.progress
+    # the end of the block is never formed as addr + n in the address type: a block that reaches the top of the address
+    # space makes that sum wrap to a small number, and a walk "while cursor < end" then covers nothing
+    for p in ps:
+        terms = list(p.cond_terms())
+        for e in p.effects:
+            terms += [a_ for a_ in e.args if isinstance(a_, tuple)]
+        for t_ in terms:
+            for x in sym.subterms(t_):
+                if x[0] == '+' and len(x) == 3 and {strip_cast(x[1]), strip_cast(x[2])} == {ADDR, N}:
+                    qt = (eng.optype.get(x) or '').replace('const ', '').strip()
+                    if qt in eng.INT_MAX_OF and qt.startswith('unsigned') and eng.INT_MAX_OF[qt] <= (1 << 32) - 1:
+                        bad = bad or ('the end of the block is computed as %s in %s: for a block that reaches the top of the address space the sum wraps '
+                                      'around and the walk that is bounded by it ends at once (or never)' % (fmt(x), qt))
 
     def same(facts, e):
         return (e.is_const() and e.c == 0) or (eng.entails(facts, e) and eng.entails(facts, -e))
